@@ -936,6 +936,11 @@ class C06(RefProp):
         out.append(refcase("REPEAT 3\n    BREAK\n    STRING x", ["BREAK", "STRING x"] * 3))
         out.append(refcase("REPEAT i,2\n    IF i==0\n        break\n    PAUSE\n    $STRING i", ["BREAK", "PAUSE", "STRING 0", "PAUSE", "STRING 1"]))
         out.append(refcase("WHILE w,w<2\n    Break\n    CTRL BREAK", ["BREAK", "CTRL BREAK"] * 2))
+        # the WHILE counter counts completed iterations, also those cut short by CONTINUELOOP, with a condition that does
+        # not depend on the counter (seed C06-K: with `WHILE k,k<n` the same change only shows as a loop that never ends)
+        out.append(refcase("VAR n 0\nWHILE c,n<4\n    VAR n n+1\n    IF n==2\n        CONTINUELOOP\n    $STRING c", ["STRING 0", "STRING 2", "STRING 3"], {"n": 4}))
+        out.append(refcase("VAR n 0\nWHILE c,n<3\n    VAR n n+1\n    $STRING c\n    CONTINUE\n    STRING never", ["STRING 0", "STRING 1", "STRING 2"], {"n": 3}))
+        out.append(refcase("VAR n 0\nWHILE k,n<5\n    VAR n n+1\n    IF k<2\n        IF TRUE\n            CONTINUE_LOOP\n    $STRING k", ["STRING 2", "STRING 3", "STRING 4"], {"n": 5}))
         for n in [0, 1, 2, 3]:
             for ctr in (None, "i"):
                 for brk in (None, "break", "continue"):
